@@ -315,22 +315,32 @@ Compat(e, d) ==
   /\ d.r \in e.rs
   /\ (e.rel = {} \/ \E k \in DOMAIN d.rel : d.rel[k].r \in e.rel)
 
-RECURSIVE PM(_, _, _)
-PM(E, O, ds) ==
-  IF E = <<>> THEN O = {}
-  ELSE \E o \in O : Compat(Head(E), ds[o]) /\ PM(Tail(E), O \ {o}, ds)
+\* every element of the sequence X (indices into E) gets its own compatible diagnostic out of the set D
+RECURSIVE CoverItems(_, _, _, _)
+CoverItems(X, D, E, ds) ==
+  IF X = <<>> THEN TRUE
+  ELSE \E d \in D : Compat(E[Head(X)], ds[d]) /\ CoverItems(Tail(X), D \ {d}, E, ds)
 
-SelectIx(E, S) == [k \in 1..Len(SortedSeq(S)) |-> E[SortedSeq(S)[k]]]
+\* every element of the sequence Y (indices into ds) gets its own compatible item out of the set I (indices into E)
+RECURSIVE CoverDiags(_, _, _, _)
+CoverDiags(Y, I, E, ds) ==
+  IF Y = <<>> THEN TRUE
+  ELSE \E i \in I : Compat(E[i], ds[Head(Y)]) /\ CoverDiags(Tail(Y), I \ {i}, E, ds)
 
+\* The slice is as expected iff there is a matching between expected items and diagnostics in which every REQUIRED
+\* item and every diagnostic of the slice's families is matched; optional items and diagnostics of unknown wording
+\* ("?") may stay unmatched.  By the Mendelsohn-Dulmage theorem such a matching exists iff there is one that covers
+\* the required items and one that covers the slice's diagnostics - two searches that branch only over compatible
+\* pairs (no enumeration of subsets).
 SliceOK(E, ds, fams) ==
   LET V == {k \in DOMAIN ds : ds[k].stage = "valid"}
       O == {k \in V : TagFam(ds[k].tag) \in fams}
       W == {k \in V : ds[k].tag = "?"}
       Req == {k \in DOMAIN E : ~E[k].opt}
-      Opt == {k \in DOMAIN E : E[k].opt}
-  IN \E So \in SUBSET Opt : \E Ws \in SUBSET W :
-        /\ Cardinality(Req) + Cardinality(So) = Cardinality(O) + Cardinality(Ws)
-        /\ PM(SelectIx(E, Req \cup So), O \cup Ws, ds)
+  IN /\ Cardinality(Req) <= Cardinality(O) + Cardinality(W)
+     /\ Cardinality(O) <= Len(E)
+     /\ CoverItems(SortedSeq(Req), O \cup W, E, ds)
+     /\ CoverDiags(SortedSeq(O), DOMAIN E, E, ds)
 
 -----------------------------------------------------------------------------
 (* Per-property verdicts on one validated observation *)
